@@ -210,8 +210,22 @@ func runHTTP1(t []string) string {
 			ref = string(rb)
 		}
 		code, done = post(ccPrefix+"/chargingdata/"+escapePath(ref)+"/"+kind, body, 40*time.Second)
-	case "recharge":
-		if !mkSession() {
+	case "recharge", "recharge0":
+		if kind == "recharge0" {
+			// the session's subscriber context has no notification address
+			fr := fullRequest(probeSupi, 0)
+			delete(fr, "notifyUri")
+			fb, _ := json.Marshal(fr)
+			w0 := doHTTP("POST", ccPrefix+"/chargingdata", fb)
+			if l := w0.Header().Get("Location"); l != "" {
+				if i := strings.LastIndex(l, "/chargingdata/"); i >= 0 {
+					sid = l[i+len("/chargingdata/"):]
+				}
+			}
+			if w0.Code != 201 || sid == "" {
+				return "setup-failed"
+			}
+		} else if !mkSession() {
 			return "setup-failed"
 		}
 		rb, err := hex.DecodeString(t[3])
@@ -370,6 +384,9 @@ func genHTTP(o genOpts, w *bufio.Writer) {
 	for _, p := range []string{"x", "_", "__", "a_b", "a_1", probeSupi + "_1", probeSupi + "_", "_1", probeSupi + "_99999999999", probeSupi + "_-1", probeSupi + "_1_2",
 		probeSupi, "imsi-unknown_1", probeSupi + "_2", " _ ", probeSupi + "_0x1", probeSupi + "_1 "} {
 		emit("recharge", nil, hexOf([]byte(p)))
+	}
+	for _, p := range []string{probeSupi + "_1", probeSupi + "_2", "imsi-unknown_1"} {
+		emit("recharge0", nil, hexOf([]byte(p)))
 	}
 	// 7. random multi-member removals
 	for i := 0; i < o.n; i++ {
